@@ -124,6 +124,10 @@ func BuildJournal(source GtfsrtSource, startTime, endTime time.Time) *Journal {
 		createdAt := feedMessage.CreatedAt
 		newActiveTrips := map[string]bool{}
 		for _, tripUpdate := range feedMessage.Trips {
+			if len(tripUpdate.ID.ID) < 6 {
+				// Not a NYCT trip ID: there is no origin time prefix to strip for the UID.
+				continue
+			}
 			startTime := tripUpdate.ID.StartDate.Add(tripUpdate.ID.StartTime)
 			tripUID := fmt.Sprintf("%d%s", startTime.Unix(), tripUpdate.ID.ID[6:])
 			if existingTrip, ok := trips[tripUID]; ok {
@@ -248,7 +252,7 @@ func createPartition(stopTimes []StopTime, updates []gtfs.StopTimeUpdate) partit
 	}
 	var p partition
 
-	firstUpdatedStopID := *updates[0].StopID
+	firstUpdatedStopID := stopIDOrEmpty(&updates[0])
 	firstUpdatedStopTimeIndex := 0
 	for i, stopTime := range stopTimes {
 		if stopTime.StopID == firstUpdatedStopID {
@@ -265,7 +269,7 @@ func createPartition(stopTimes []StopTime, updates []gtfs.StopTimeUpdate) partit
 		}
 		stopTime := &stopTimes[firstUpdatedStopTimeIndex+i]
 		update := &updates[updateIndex]
-		if stopTime.StopID != *update.StopID {
+		if stopTime.StopID != stopIDOrEmpty(update) {
 			break
 		}
 		p.updated = append(p.updated, updated{
@@ -281,7 +285,7 @@ func createPartition(stopTimes []StopTime, updates []gtfs.StopTimeUpdate) partit
 }
 
 func (stopTime *StopTime) update(stopTimeUpdate *gtfs.StopTimeUpdate, feedCreatedAt time.Time) {
-	stopTime.StopID = *stopTimeUpdate.StopID
+	stopTime.StopID = stopIDOrEmpty(stopTimeUpdate)
 	stopTime.ArrivalTime = stopTimeUpdate.GetArrival().Time
 	stopTime.DepartureTime = stopTimeUpdate.GetDeparture().Time
 	stopTime.Track = stopTimeUpdate.NyctTrack
@@ -293,4 +297,12 @@ func (stopTime *StopTime) markPast(feedCreatedAt time.Time) {
 	if stopTime.MarkedPast == nil {
 		stopTime.MarkedPast = &feedCreatedAt
 	}
+}
+
+// stopIDOrEmpty returns the stop ID of the update, or the empty string if the update has none.
+func stopIDOrEmpty(stopTimeUpdate *gtfs.StopTimeUpdate) string {
+	if stopTimeUpdate.StopID == nil {
+		return ""
+	}
+	return *stopTimeUpdate.StopID
 }
